@@ -38,6 +38,7 @@ class _CompositeSpec:
         _source_file_path=Str,  # a pathlib.Path; only passed around and compared
         _has_parent_service=Bool,
         _doc=Str,
+        _attributes=SeqOf(ObjOf("pydsdl._serializable._attribute.Attribute")),
     )
 
     def invariant(self):
